@@ -64,7 +64,7 @@ REQUIRED = {
     "C01": ["histories_on_real_driver", "histories_with_wide_rule_ids", "fault_executions"],
     "C04": ["refused_removals", "fault_plans", "sessions_established", "negative_responses", "late_answers_to_report_requests"],
     "C05": ["refused_removals", "fault_plans", "sessions_established", "late_answers_to_report_requests", "periodic_ticks_on_the_real_driver"],
-    "C06": ["duplicates_in_window", "sends_after_expiry", "tx_events_on_an_id_shared_with_a_retained_request"],
+    "C06": ["duplicates_in_window", "copies_after_the_real_window", "tx_events_on_an_id_shared_with_a_retained_request"],
     "C07": ["hostile_datagrams", "unaddressed_sessions_of_the_sender_checked"],
     "C09": ["retransmissions", "answered", "abandoned", "real_timer_requests",
             "stale_expiries_observed(answer_handled_before_the_queued_expiry)"],
